@@ -237,6 +237,76 @@ def check_padded(case):
     return n, "ok", (lab, pos), viols
 
 
+JSON_FREEDOMS = ("members-reversed", "members-sorted", "indented", "ascii-escapes", "compact-separators", "tier-members-rotated")
+
+
+def _json_variant(text, schema, how):
+    """the same JSON document written with another of the spellings RFC 8259 declares insignificant: the order of the members of an object
+    (NOT of the simplified schema's "tiers" object, whose member order is the tier order), white space, backslash-u escapes"""
+    import collections
+    import json
+    d = json.loads(text, object_pairs_hook=collections.OrderedDict)
+
+    def reorder(obj, f):
+        return collections.OrderedDict(f(list(obj.items())))
+    if how in ("members-reversed", "members-sorted", "tier-members-rotated"):
+        f = {"members-reversed": lambda it: it[::-1], "members-sorted": sorted, "tier-members-rotated": lambda it: it[1:] + it[:1]}[how]
+        if schema == "textgrid_json":
+            d["tiers"] = [reorder(t, f) for t in d["tiers"]]
+        else:
+            d["tiers"] = collections.OrderedDict((nm, reorder(t, f)) for nm, t in d["tiers"].items())
+        if how != "tier-members-rotated":
+            d = reorder(d, f)
+        return json.dumps(d, ensure_ascii=False)
+    if how == "indented":
+        return json.dumps(d, ensure_ascii=False, indent=2)
+    if how == "ascii-escapes":
+        return json.dumps(d, ensure_ascii=True)
+    return json.dumps(d, ensure_ascii=False, separators=(",", ":"))
+
+
+def check_json_freedoms(case):
+    """both JSON schemas: a document and its re-spellings (member order inside objects, indentation, escapes, separators) encode the same data and
+    must open to the same textgrid, for both values of includeEmptyIntervals"""
+    tag, meta, (lo, hi, tiers), notation, negzero = case
+    data = mkdata(lo, hi, tiers)
+    fn = os.path.join(scratch_dir(), "c03.json")
+    names = [t["name"] for t in data["tiers"]]
+    viols, n = [], 0
+    for schema in ("json", "textgrid_json"):
+        if schema == "json" and (len(set(names)) != len(names) or any((t["xmin"], t["xmax"]) != (lo, hi) for t in data["tiers"])):
+            continue
+        text = praatfmt.encode_json(data, schema)
+        ref = {}
+        for incl in (True, False):
+            with open(fn, "w", encoding="utf-8") as fd:
+                fd.write(text)
+            st, r, _ = call(_tgmod.openTextgrid, fn, incl, "silence")
+            ref[incl] = ("raised", type(r).__name__) if st == "exc" else snap(r)
+        for how in JSON_FREEDOMS:
+            var = _json_variant(text, schema, how)
+            with open(fn, "w", encoding="utf-8") as fd:
+                fd.write(var)
+            for incl in (True, False):
+                n += 1
+                st, r, _ = call(_tgmod.openTextgrid, fn, incl, "silence")
+                got = ("raised", type(r).__name__) if st == "exc" else snap(r)
+                if got != ref[incl]:
+                    viols.append(Viol("json-respelling-read-differently", f"schema {schema}, {how}, includeEmptyIntervals={incl}: {str(got)[:300]}; the same data in "
+                                                                          f"the writer's own spelling opens to {str(ref[incl])[:300]}   [{var[:200]}]"))
+                    break
+    return n, "ok", (tag, c01_shape(tiers)), viols
+
+
+def c01_shape(tiers):
+    return tuple((t[0], len(t[4]), sum(1 for e in t[4] if e[-1] == "")) for t in tiers)
+
+
+def snap(tg):
+    return (tuple(tg.tierNames), tg.minTimestamp, tg.maxTimestamp,
+            tuple((type(t).__name__, t.name, t.minTimestamp, t.maxTimestamp, tuple(tuple(e) for e in t.entries)) for t in tg.tiers))
+
+
 def gen_structure():
     G = (0, 1, 2.5, 3)
     ivs = [()] + [((a, b, l),) for a, b in itertools.combinations(G, 2) for l in ("x", "")] + \
@@ -308,6 +378,10 @@ def parts(tier):
                   rule="every label over {a,\",\\n,=,1,space,e-acute,CJK} up to length %d in 4 positions; each case = 5 layouts x 4 "
                        "encodings x 2 newlines x includeEmptyIntervals files written by the independent writer and opened" % L,
                   bounds={"label_length": L}, chunk=4),
+        InputPart("json-respellings", lambda: itertools.chain(gen_structure(), itertools.islice(gen_labels(2), 0, None, 7)), check_json_freedoms,
+                  rule="all small structures and every 7th label case x both JSON schemas x %d re-spellings that RFC 8259 declares insignificant (members of "
+                       "the top-level and tier objects reversed / sorted / rotated, indentation, backslash-u escapes, compact separators): the reader returns the "
+                       "same textgrid as for the writer's own spelling, with and without empty intervals" % len(JSON_FREEDOMS), bounds={"respellings": len(JSON_FREEDOMS)}, chunk=8),
         InputPart("structure", gen_structure, check,
                   rule="all small structures: 0-3 intervals incl. blank-labelled, 0-3 points, empty tiers, per-tier spans, tier order",
                   bounds={}, chunk=4),
